@@ -228,15 +228,20 @@ def hpv_checks(ctx: Ctx, n: int):
         expr = (f"match hpv_cohort_factors {{| h_hpv := {coq_uni({**base, 'params': pp})}; h_nohpv := {coq_uni({**base, 'params': pn})} |}} "
                 f"{rows} None with inr v => inr (qouts v) | inl e => inl e end")
         pending.append((case, tot, expr))
+        if g["base"] == 2:          # Bayesian-network mode against HpvBn.hpv_bn_cohort_factors (whole cohort and one T-stage)
+            for ts in [None] + ([rng.choice(stages)] if stages else []):
+                targ = "None" if ts is None else f"(Some {_s(ts)})"
+                expr_bn = expr.replace("hpv_cohort_factors", "hpv_bn_cohort_factors").replace(f"{rows} None with", f"{rows} {targ} with")
+                pending.append(({**case, "t_stage": ts, "mode": "BN"}, float(m.likelihood(t_stage=ts, mode="BN")), expr_bn))
         if stages:
             ts = rng.choice(stages)
             expr_t = expr.replace(f"{rows} None with", f'{rows} (Some {_s(ts)}) with')
             assert expr_t != expr
             pending.append(({**case, "t_stage": ts}, float(m.likelihood(t_stage=ts)), expr_t))
     if pending:
-        vals = run_coq_cases(ctx.work / "hpv", [e for _, _, e in pending], IMPORTS + " LikelihoodProofs Hpv", shard=10)
+        vals = run_coq_cases(ctx.work / "hpv", [e for _, _, e in pending], IMPORTS + " LikelihoodProofs Hpv HpvBn", shard=10)
         for (case, tot, _), v in zip(pending, vals):
-            mm = _lik_cmp("HPVUnilateral.likelihood()", ("ok", tot), v, True)
+            mm = _lik_cmp(f"HPVUnilateral.likelihood(t_stage={case.get('t_stage')!r}, mode={case.get('mode', 'HMM')!r})", ("ok", tot), v, True)
             if mm:
                 mm["statement"] = "cohort likelihood = HPV+ patients under the hpv model + HPV- patients under the nohpv model (C13_hpv_likelihood_is_sum)"
                 ctx.violation("HPV cohort likelihood differs from the model", {"case": case, "mismatch": mm},
